@@ -20,7 +20,7 @@ SPACE = {
  "C09": "B: the same family through uniquify + flatten; a hierarchical cell without ports; EDIF-policy designs carrying identifiers, also with generated-looking identifiers already present",
  "C10": "A: 5 naming scopes x 2 policies (a second definition reusing the names, orphan with identifier; constructors given a properties dictionary), the mixed-policy scenario N-MIX-EDIF (orphans built under DEFAULT joining an EDIF tree, policy tag of an orphan root set), depth 2; lookups from parent, library and netlist roots",
  "C11": "B: 5 get_h* functions x all root kinds x recursive; found again by its own name; one-element arrays; unnamed items; 40 breaking edits x skeletons, is_valid / is_unique re-judged",
- "C12": "B: every hwire / hpin / hcable / hport / wire start, get_hwires and get_hcables with ALL / INSIDE / OUTSIDE / BOTH, get_hpins",
+ "C12": "B: every hwire / hpin / hcable / hport / plain wire, cable, pin, port start (depth up to 4): get_hwires with ALL / INSIDE / OUTSIDE / BOTH, get_hcables with ALL (the statement fixes the narrower selections for wires only), get_hpins",
  "C13": "B: 2 policies x 13 functions x 12 roots x lookup on/off x selection x recursive x key x patterns (incl. bracketed names, pairs in both orders) x is_case x is_re x filter",
  "C14": "A: S1-S11 + 10 naming scenarios: every refused call compared with its pre-state (snapshot incl. name index, then exact lookups)",
  "C15": "B (fault enumeration): 11 base files (incl. the other Verilog spellings, rich EDIF, EBLIF with .clock / inout / nameless instances) x every single token fault (truncate, delete, duplicate, replace by ( ) undeclared unsupported number nothing declared-name) x policy; every instantiation graph over three modules (cycles included) x declaration orders; file-level faults; later parse of a different good file compared with a fresh process",
